@@ -21,7 +21,8 @@ def plan(tier, seed):
                 vacuity=1, mutants=[])
     famR = dict(name='recook_follows_document_kind', module=H, fn='recook', jobs=[{}], timeout=300, vacuity=1,
                 mutants=[{'name': 'booleans_stick', 'cfg': {}}])
-    famO = dict(name='encoding_option_is_not_the_source_encoding', module=H, fn='option_encoding', jobs=[{}], timeout=300,
+    famF = dict(name='file_source_bytes', module=H, fn='file_source_bytes', jobs=[{}], timeout=300, vacuity=1, mutants=[])
+    famE = dict(name='encoding_option_is_not_the_source_encoding', module=H, fn='option_encoding', jobs=[{}], timeout=300,
                 vacuity=1, mutants=[])
     return dict(
         level='model_checking',
@@ -34,12 +35,12 @@ def plan(tier, seed):
                 'standalone, trailing space, a later encoding="..." attribute in the document); read_bytes on every '
                 'combination of {no BOM, UTF-8/16LE/16BE/32LE/32BE BOM} x {no declaration, declaration without / with '
                 'encoding} x {meta charset present/absent} x {BOM-less UTF-16/32 prefix}; detect_encoding on meta elements '
-                'with symbolic spacing/quotes for str and bytes input. Outside: attribute order content/http-equiv '
+                'with symbolic spacing/quotes for str and bytes input; template files (markup and text mode, 2 documents) stored under every BOM / BOM-less UTF-16/32 form render what the str document renders, text files encoded with the encoding option (4 choices) or utf-8. Outside: attribute order content/http-equiv '
                 'reversed and <meta charset> (not recognised; known finding), unquoted content attribute, other codecs '
                 '(trusted: stdlib), whole-template bytes-vs-str rendering (compile() boundary).'),
         assumptions=['stdlib codecs are trusted; documents are assembled from grammar choices so that the expected decision '
                      'is known by construction'],
-        families=[famD, famT, famO, famM, famR, famO],
+        families=[famD, famT, famO, famM, famR, famE, famF],
         extra=z_queries,
     )
 
